@@ -119,6 +119,7 @@ reporter(int is_error, const char* file, int line, const char* function, const c
 // ---- caller thread: get_frame loop --------------------------------------------------------------------
 static volatile int run_no = 0, running = 0, finished = 0;
 static long frames_got = 0;
+static volatile int paused = 0;
 static int run_obj;
 
 static void
@@ -137,6 +138,10 @@ caller(void* arg)
         seen_run = run_no;
         for (int k = 0; k < caller_calls && running && run_no == seen_run; k++) {
             char b[256];
+            while (paused && running && !finished && run_no == seen_run) // (ctl op `pause`: no frame call for a while)
+                vs_wait(&run_obj, "caller_paused");
+            if (!running || finished || run_no != seen_run)
+                break;
             struct ImageInfo info;
             memset(&info, 0, sizeof info);
             info.hardware_frame_id = (uint64_t)-7; // sentinel: the camera did not fill it in
@@ -200,7 +205,22 @@ controller(void)
             run_no++;
             running = 1;
             vs_signal(&run_obj);
+        } else if (!strcmp(op, "mark")) {
+            vs_yield("ctl_mark"); // a scheduling point a `window` line can refer to
+        } else if (!strcmp(op, "pause")) {
+            // pause: the caller makes no further frame call until `resume` (or stop). Gives a call in progress some time to
+            // complete, but does not insist: nothing promises that a camera delivers a frame (a camera whose trigger was
+            // disabled while it ran can sit waiting for a trigger, see DESIGN 15.6) - SimCamStreamObs accounts for a call
+            // that is still pending.
+            paused = 1;
+            for (int j = 0; j < 400 && caller_in_call; j++)
+                vs_yield_low("ctl_pause");
+        } else if (!strcmp(op, "resume")) {
+            paused = 0;
+            vs_signal(&run_obj);
         } else if (!strcmp(op, "stop")) {
+            paused = 0;
+            vs_signal(&run_obj);
             running = 0;
             cur_seq[me] = ++gseq;
             emit(cur_seq[me], "{\"e\":\"StopCall\"}");
@@ -286,6 +306,17 @@ main(int argc, char** argv)
             continue;
         if (!strcmp(tok, "seed")) cfg.seed = strtoull(strtok(0, " \t\n"), 0, 10);
         else if (!strcmp(tok, "spurious")) cfg.spurious = atoi(strtok(0, " \t\n"));
+        else if (!strcmp(tok, "window")) {
+            // window LABEL INDEX THREAD STEPS [x]: see vsched.h (x = exclude THREAD instead of running it exclusively)
+            static char wl[64];
+            snprintf(wl, sizeof wl, "%s", strtok(0, " \t\n"));
+            cfg.window_label = wl;
+            cfg.window_index = atoi(strtok(0, " \t\n"));
+            cfg.window_thread = atoi(strtok(0, " \t\n"));
+            cfg.window_steps = atoi(strtok(0, " \t\n"));
+            char* x = strtok(0, " \t\n");
+            cfg.window_exclude = x && x[0] == 'x';
+        }
         else if (!strcmp(tok, "budget")) cfg.budget = cfg.fair_budget = atol(strtok(0, " \t\n"));
         else if (!strcmp(tok, "pct_depth")) cfg.pct_depth = atoi(strtok(0, " \t\n"));
         else if (!strcmp(tok, "pct_len")) cfg.pct_len = atol(strtok(0, " \t\n"));
